@@ -128,9 +128,16 @@ func (e *Explorer) nondetBytes(name string, min, max int) []value {
 	e.varLens[name] = n
 	out := make([]value, n)
 	for i := range out {
-		v := mkVar(fmt.Sprintf("%s[%d]", name, i), BV(8))
+		vn := fmt.Sprintf("%s[%d]", name, i)
+		v := mkVar(vn, sortOfKind(types.Uint8))
 		e.vars = append(e.vars, v)
 		out[i] = sym{v, types.Uint8}
+		if liaMode {
+			blo, bhi := liaRangeBig(types.Uint8)
+			varRange[vn] = ival{blo, bhi}
+			delete(ivalMemo, v.id)
+			e.Assume(mkAnd(mk(OpILe, BoolSort, mkConst(IntSort, 0), v), mk(OpILe, BoolSort, v, mkConst(IntSort, 255))))
+		}
 	}
 	return out
 }
